@@ -1,25 +1,135 @@
 /-
   C15 — server eventing is ordered, complete, and bounded by the subscription's life.
-  Property theorems only.  (work in progress: the history theorem follows)
+
+  Property theorems only (helper lemmas are in `Upnp/Lemmas/C15*.lean`).  The model
+  (`Upnp/Model/C15Server.lean`) transcribes `server.py`'s eventing; `step` is the very function the
+  correspondence driver runs.  The judge `C15.ok` (`Upnp/Spec/C15.lean`, clauses J1–J9) is the
+  monitor the driver evaluates on the IMPLEMENTATION's traces.
+
+  Full statement (property text): for every history of SUBSCRIBE, renewal, UNSUBSCRIBE, state
+  changes, clock advances and NOTIFY completions in any order, a new subscriber is answered with a
+  fresh SID and its granted timeout and then receives an initial event with key 0 carrying every
+  evented variable; later changes reach every unexpired subscriber in events whose keys increase
+  by one per subscriber (2^32-1 -> 1); once changes stop the last event of each subscriber carries
+  the current values; at most one event per variable per moderation interval; renewal extends,
+  unsubscribed / expired subscribers receive nothing, unknown SIDs are refused.
+  `c15_history` proves exactly this reading (J1–J9) for the model, for all histories, unbounded.
 -/
-import Upnp.Model.C15Server
-import Upnp.Spec.C15
+import Upnp.Lemmas.C15Adv
+import Upnp.Lemmas.C15Handlers
 namespace Upnp.C15
 
 /-- The key arithmetic read from `EventSubscriber.get_next_seq` (regenerated from the source on
     every run) is the property's: +1 per event, and 2^32-1 is followed by 1; keys start at 0. -/
 theorem seq_wrap (k : Nat) :
-    nextKey Gen.C15.seqIncr Gen.C15.seqMax Gen.C15.seqWrapTo k = specNextKey k ∧ Gen.C15.seqStart = 0 := by
-  refine ⟨?_, by decide⟩
-  have e1 : Gen.C15.seqIncr = 1 := rfl
-  have e2 : Gen.C15.seqMax = 4294967295 := rfl
-  have e3 : Gen.C15.seqWrapTo = 1 := rfl
-  rw [e1, e2, e3]
-  unfold nextKey specNextKey
-  by_cases h : 4294967295 ≤ k
-  · rw [if_pos h, if_pos (by omega)]
-  · rw [if_neg h, if_neg (by omega)]
+    nextKey Gen.C15.seqIncr Gen.C15.seqMax Gen.C15.seqWrapTo k = specNextKey k ∧ Gen.C15.seqStart = 0 :=
+  ⟨nextKey_gen k, by decide⟩
 
 example : nextKey Gen.C15.seqIncr Gen.C15.seqMax Gen.C15.seqWrapTo 4294967295 = 1 := by decide
+example : nextKey Gen.C15.seqIncr Gen.C15.seqMax Gen.C15.seqWrapTo 7 = 8 := by decide
+
+/-- a TIMEOUT header `Second-n` (1..9 digits) is never answered 400 by the model's handler -/
+theorem strict_timeout_understood (s : Str) (h : strictTimeout s = true) : (parseTO (some s)).isSome = true :=
+  timeoutOk_parse (some s) h
+
+example : strictTimeout "Second-1800".toList = true := by decide
+
+/-- **One operation** (run to quiescence): every observation the model emits is accepted by the judge's
+    monitor and the simulation relation is re-established. -/
+theorem step_ok (m : State) (j : Mon) (o : Op) (h : Rel m j) (hn : j.now = m.now) :
+    Rel (step m o).1 ((j.beginOp o).obsRun (step m o).2) := by
+  cases o with
+  | subscribe sid cb to => exact subscribe_ok m j sid cb to h hn
+  | unsubscribe sid => exact unsubscribe_ok m j sid h hn
+  | set x v => exact setVar_ok m j x v h hn
+  | adv dt =>
+    show Rel (advance (m.vars.length + 1) m (m.now + dt)).1
+      (({ j with target := j.now + dt } : Mon).obsRun (advance (m.vars.length + 1) m (m.now + dt)).2)
+    apply advance_ok
+    · exact ⟨h.ok, by show j.now + dt = m.now + dt; rw [hn], h.now, h.awaiting, h.ev, h.rate, h.cur, h.lcLen, h.vars,
+        h.subs, h.vals, by omega⟩
+    · have := pending_le_length m.vars; omega
+  | done k => exact done_ok m j k h
+  | setKey sid k => exact setKey_ok m j sid k h
+
+theorem foldl_obs (l : List Obs) (j : Mon) : (l.map Item.obs).foldl Mon.step j = j.obsRun l := by
+  induction l generalizing j with
+  | nil => rfl
+  | cons o l ih => exact ih (j.onObs o)
+
+/-- from any related pair of states, the trace of every continuation is accepted -/
+theorem run_ok : ∀ (ops : List Op) (m : State) (j : Mon), Rel m j →
+    (((run m ops).foldl Mon.step j).close).ok = true := by
+  intro ops
+  induction ops with
+  | nil => intro m j h; exact (Rel.close h).1.ok
+  | cons o os ih =>
+    intro m j h
+    obtain ⟨hc, hcn⟩ := Rel.close h
+    show ((((Item.op o :: (step m o).2.map Item.obs) ++ run (step m o).1 os).foldl Mon.step j).close).ok = true
+    rw [List.foldl_append]
+    show (((run (step m o).1 os).foldl Mon.step (((step m o).2.map Item.obs).foldl Mon.step ((j.close).beginOp o))).close).ok = true
+    rw [foldl_obs]
+    exact ih _ _ (step_ok m j.close o hc hcn)
+
+/-- the freshly constructed service and the monitor's initial state are related -/
+theorem init_rel (c : Cfg) (hb : 0 ≤ c.base) :
+    Rel (init c) (Mon.init (c.vars.map (·.evented)) (c.vars.map (·.rate)) (c.vars.map (·.default))) := by
+  refine ⟨rfl, rfl, Int.le_refl _, rfl, ?_, ?_, ?_, ?_, ?_, ⟨rfl, by simp [init], ?_, ?_⟩, ?_, Int.le_refl _⟩
+  · show c.vars.map _ = (c.vars.map (initVar c.base)).map _
+    rw [List.map_map]; rfl
+  · show c.vars.map _ = (c.vars.map (initVar c.base)).map _
+    rw [List.map_map]; rfl
+  · show c.vars.map _ = (c.vars.map (initVar c.base)).map _
+    rw [List.map_map]; rfl
+  · simp [Mon.init, init]
+  · intro i v hv
+    have hv' : (c.vars.map (initVar c.base))[i]? = some v := hv
+    rw [List.getElem?_map] at hv'
+    cases hc : c.vars[i]? with
+    | none => rw [hc] at hv'; cases hv'
+    | some vc =>
+      rw [hc] at hv'
+      simp only [Option.map_some, Option.some.injEq] at hv'
+      subst hv'
+      refine ⟨?_, Or.inl ?_, fun f hf => by cases hf⟩
+      · show (if vc.evented && vc.default.isSome then (0 : Int) else -c.base) ≤ 0
+        split <;> omega
+      · show ((c.vars.map (·.default)).map (fun _ => (none : Option Int)))[i]? = some none
+        simp [List.getElem?_map, hc]
+  · intro s hs; cases hs
+  · intro k sm hk; cases hk
+  · intro s hs; cases hs
+
+/-- **C15, for every history.**  For every service configuration (any number of variables, evented or
+    not, any moderation intervals, any default values; the service is created after the epoch) and every
+    history — SUBSCRIBE with any CALLBACK / TIMEOUT text, renewal and UNSUBSCRIBE of known, unknown or absent
+    SIDs, assignments, clock advances, NOTIFY completions in any order, key presets — the trace of the
+    model (every operation followed by the responses, NOTIFYs and triggers it caused) is accepted by the
+    judge `C15.ok`, i.e. satisfies J1–J9 of `Spec/C15.lean`.  No bound on the length of the history, the
+    number of subscribers or the clock. -/
+theorem c15_history (c : Cfg) (hb : 0 ≤ c.base) (ops : List Op) :
+    ok (c.vars.map (·.evented)) (c.vars.map (·.rate)) (c.vars.map (·.default)) (run (init c) ops) = true :=
+  run_ok ops (init c) _ (init_rel c hb)
+
+/-- the fuel of `advance` is never the reason it stops: after any clock advance no timer is overdue -/
+theorem no_overdue_timer (m : State) (j : Mon) (dt : Nat) (h : Rel m j) (hn : j.now = m.now) :
+    ∀ (i : Nat) (v : Var) (f : Int), (step m (.adv dt)).1.vars[i]? = some v → v.deferred = some f →
+      (step m (.adv dt)).1.now < f := by
+  intro i v f hv hf
+  exact ((step_ok m j (.adv dt) h hn).vars i v hv).dfr f hf |>.2.2.2
+
+/-! ### non-vacuity: a concrete history with a burst inside a moderation interval, a second subscriber whose
+    initial delivery is still in flight when a variable changes, an expiry and a timer firing; the theorem's
+    hypothesis holds and the trace is the expected, non-trivial one -/
+
+def exCfg : Cfg := { base := 1704067200000000, vars := [⟨true, 200000, some 0⟩, ⟨true, 0, none⟩, ⟨false, 0, some 3⟩] }
+def exOps : List Op :=
+  [ .subscribe .absent (some "<http://h/a>".toList) (some "Second-1".toList), .set 0 1, .adv 50000, .set 0 2,
+    .subscribe .absent (some "<http://h/b>".toList) none, .set 1 5, .done 3, .adv 2000000, .set 1 6,
+    .subscribe (.known 0) none none, .unsubscribe (.known 1), .unsubscribe (.known 1) ]
+
+example : ok (exCfg.vars.map (·.evented)) (exCfg.vars.map (·.rate)) (exCfg.vars.map (·.default)) (run (init exCfg) exOps) = true :=
+  c15_history exCfg (by decide) exOps
 
 end Upnp.C15
